@@ -133,7 +133,9 @@ class AsyncTask(futures.FutureBase):
                     self.args,
                     self.kwargs,
                 )
-            except RuntimeError:
+            except Exception:
+                # repr() of the arguments failed (RecursionError for self-referencing structures,
+                # or whatever a user-defined __repr__ raises): describe the task without them
                 self._name = "%06d.%s" % (
                     self._id,
                     core_inspection.get_full_name(self.fn),
